@@ -381,8 +381,10 @@ class Ctx:
         ev = {"property_id": self.pid, "tier": self.tier, "seed": self.seed, "level": level,
               "coverage": cov, "assumptions": self.assumptions, "wall_s": round(wall, 2),
               "violations": len(self.violations)}
-        os.makedirs(os.path.join(VERIF, "evidence"), exist_ok=True)
-        with open(os.path.join(VERIF, "evidence", self.pid + ".json"), "w") as fh:
+        # runs against a changed scratch copy (VERIF_REPO=...) may keep their evidence apart
+        evdir = os.environ.get("VERIF_EVIDENCE_DIR") or os.path.join(VERIF, "evidence")
+        os.makedirs(evdir, exist_ok=True)
+        with open(os.path.join(evdir, self.pid + ".json"), "w") as fh:
             json.dump(ev, fh, indent=1, default=str)
         for k in self.known_reached:
             print("KNOWN-FINDING: property=%s %s" % (self.pid, k), flush=True)
